@@ -23,6 +23,8 @@ for seed in sorted(rows):
         n_det += 1
     else:
         res = "MISSED" if "error" not in d else "n/a: " + d["error"][:60]
+    if d.get("stale_after"):
+        res += f" [patch text predates repo fix {d['stale_after']} on the same lines and no longer applies; result from repo {d['repo_head']}]"
     if d["patch"].endswith("rebased.diff"):
         res += " [rebased]"
     desc = "; ".join(f"`{a}:{b}`"[:90] for a, b in d.get("descriptors", [])[:2]).replace("|", "\\|")
